@@ -336,7 +336,19 @@ void Exec::op_foreign(Client &c) {
 	if (mal > 0) {
 		auto ins_before = [&](const std::string &key, const std::string &what) { size_t p = text.find(key); if (p == std::string::npos) return false; text.insert(p, what); return true; };
 		std::string c0 = lp->cols.empty() ? "x0" : lp->cols[0].name, r0 = lp->rows.empty() ? "r0" : lp->rows[0].name;
-		if (fmt == "MPS") switch (mal % 14) {
+		if (fmt == "MPS") switch (mal % 16) {
+		// a thousand SOS sets of one member each (tables of sets grow in steps; the members are new columns)
+		case 14: { std::string sets; for (int t = 0; t < 1000; t++) sets += std::string(t % 2 ? " S1" : " S2") + " SOS 'MARKER' 'SOSORG'\n" + strf(" zs%d obj 1\n", t) + (t % 2 ? " S1" : " S2") + " SOS 'MARKER' 'SOSEND'\n";
+			if (ins_before("RHS\n", sets)) malwhat = "a thousand SOS sets"; break; }
+		// long exact fractions on one ranged row: every literal within the reader's limits (10000 digits, four-digit exponents), their sum on one
+		// line of an LP file far beyond any line buffer (only on small problems: nobody wants to pivot on 30000-digit numbers)
+		case 15: { int nd = lp->rows.size() <= 6 && lp->cols.size() <= 8 ? 9999 : 60; uint64_t z = 88172645463325252ull + (uint64_t)mal;
+			auto big = [&](int n) { std::string d; for (int k = 0; k < n; k++) { z ^= z << 13; z ^= z >> 7; z ^= z << 17; d.push_back((char)('0' + (k == 0 ? 1 + z % 9 : z % 10))); } d.back() = "1379"[z % 4]; return d; };
+			auto drop_line = [&](const std::string &start) { size_t q; while ((q = text.find("\n" + start)) != std::string::npos) { size_t e = text.find('\n', q + 1); text.erase(q, e == std::string::npos ? std::string::npos : e - q); } };
+			drop_line(" RHS " + r0 + " "); drop_line(" RNG " + r0 + " ");   // one value per row
+			std::string rhs = " RHS " + r0 + " " + big(nd) + "e9999/" + big(nd) + "e-9999\n", rng = " RNG " + r0 + " 1e9999/" + big(nd) + "\n";
+			bool has_rng = text.find("\nRANGES\n") != std::string::npos;
+			if (!lp->rows.empty() && (has_rng ? ins_before("RANGES\n", rhs) && ins_before("BOUNDS\n", rng) : ins_before("BOUNDS\n", rhs + "RANGES\n" + rng))) malwhat = strf("right-hand side and range of one row as fractions of %d-digit numbers with four-digit exponents", nd); break; }
 		case 10: { std::string dup = " RHS " + r0 + " 98765432109876543210/3\n RHS " + r0 + " 12345678901234567890123/7 " + r0 + " 5\n"; if (ins_before("RANGES\n", dup) || ins_before("BOUNDS\n", dup)) malwhat = "a second and third rhs value for one row"; break; }
 		case 11: if (ins_before("BOUNDS\n", "RANGES\n RNG " + r0 + " 98765432109876543210/3\n RNG " + r0 + " 12345678901234567890123/7\n")) malwhat = "RANGES section (possibly a second one) with two values for one row"; break;
 		case 12: if (ins_before("ENDATA", " UP BND " + c0 + " 98765432109876543210/3\n UP BND " + c0 + " 12345678901234567890123/7\n LO BND " + c0 + " 1/3\n LO BND " + c0 + " 2/3\n FX BND " + c0 + " 4/7\n")) malwhat = "bounds given twice for one column"; break;
